@@ -93,10 +93,11 @@ def _direct_registry(draw) -> dict:
 
 
 def strategy(tier: str):
+    prior = st.sampled_from((None, None, "raw", "through-save"))
     hist = st.fixed_dictionaries(
-        {"kind": st.just("hist"), "version": gen.versions, "ops": st.lists(_lines().map(lambda l: ["rx", l]), min_size=4, max_size=25)}
+        {"kind": st.just("hist"), "version": gen.versions, "ops": st.lists(_lines().map(lambda l: ["rx", l]), min_size=4, max_size=25), "prior_save": prior}
     )
-    direct = st.fixed_dictionaries({"kind": st.just("direct"), "registry": _direct_registry(), "legacy_nulls": st.booleans()})
+    direct = st.fixed_dictionaries({"kind": st.just("direct"), "registry": _direct_registry(), "legacy_nulls": st.booleans(), "prior_save": prior})
     return st.one_of(hist, hist, direct)
 
 
@@ -224,6 +225,15 @@ def run_case(case: dict) -> Outcome:
                 await env.rx(gateway, op[1])
         else:
             env.install_registry(gateway.nodes, case["registry"])
+        if case.get("prior_save"):
+            # an earlier session left a (typically longer) file at the same path
+            with open(path, "w", encoding="utf-8") as fil:
+                fil.write(json.dumps({str(i): {"node_id": i, "node_type": 17, "protocol_version": "2.2.0", "sketch_name": "an earlier, longer file " * 4,
+                                               "children": {"1": {"child_id": 1, "child_type": 6, "values": {"0": "x" * 50}}}} for i in range(1, 6)}, indent=2))
+            if case["prior_save"] == "through-save":
+                prior = Gateway(env.RecordingTransport(), Config(persistence_file=path))
+                await prior.persistence.load()
+                await prior.persistence.save()
         before = env.snapshot(gateway.nodes)
         info["snapshot"] = before
         for node in before.values():
